@@ -11,6 +11,7 @@ import (
 
 	opchildtypes "github.com/initia-labs/OPinit/x/opchild/types"
 	ophosttypes "github.com/initia-labs/OPinit/x/ophost/types"
+	ophosthook "github.com/initia-labs/OPinit/x/ophost/types/hook"
 
 	"verifharness/mon"
 	"verifharness/sim"
@@ -204,13 +205,51 @@ func histL1World(seed uint64, steps int) ([]string, int) {
 	return t.Lines, 2
 }
 
+// histPermHook: bridges with permissioned-channel metadata over channels that are missing / in use / taken, so that
+// several listed channels are unusable for different reasons and error identity depends on the order of checks.
+func histPermHook(seed uint64, steps int) ([]string, int) {
+	r := mon.NewRand(seed)
+	t := &sim.Transcript{}
+	w := &c19World{run: scratchRun(), rng: r, env: newL1Env(0, nil), metadata: map[uint64][]byte{}, feat: map[string]int{}}
+	w.env.L1.T = t
+	for i := 0; i < 5; i++ {
+		w.channels = append(w.channels, ophosthook.PortChannelID{PortID: "transfer", ChannelID: fmt.Sprintf("channel-%d", i)})
+	}
+	w.channels = append(w.channels, ophosthook.PortChannelID{PortID: "nft-transfer", ChannelID: "channel-2"})
+	// channel-0 fresh, channel-1 in use, channel-2 taken by a stranger, channel-3 fresh, channel-4 and nft missing
+	l1 := w.env.L1
+	l1.Chan.Set(l1.Ctx, "transfer", "channel-0", 1)
+	l1.Chan.Set(l1.Ctx, "transfer", "channel-1", 5)
+	l1.Chan.Set(l1.Ctx, "transfer", "channel-2", 1)
+	_ = l1.Perm.SetAdmin(l1.Ctx, "transfer", "channel-2", sim.NewAccount("c19stranger").Addr)
+	l1.Chan.Set(l1.Ctx, "transfer", "channel-3", 1)
+	sensitive := 0
+	for s := 0; s < steps; s++ {
+		switch x := r.Intn(100); {
+		case x < 30:
+			w.opCreate()
+			sensitive++
+		case x < 65:
+			w.opUpdateMetadata()
+			sensitive++
+		case x < 80:
+			w.opUpdateChallenger()
+		default:
+			w.opChannel()
+		}
+	}
+	t.Add("PERMS %s", tableString(l1.Perm.All(l1.Ctx)))
+	t.Add("DIGEST %s", sim.Digest(l1.Dump()))
+	return t.Lines, sensitive
+}
+
 func checkC18(run *mon.Run, rng *mon.Rand, thorough bool) {
 	run.Rule = "N fresh replicas (4 quick, 16 thorough) execute the same seeded history - half of them one after the other, half concurrently in their own goroutines (thorough tier under the race detector) - and the complete transcripts (every response, full error string, gas, event list in order, validator-update lists in order, store digest after every block, genesis exports) are compared line by line with replica 0. Each replica is an independent draw of Go's randomised map iteration orders and runs at a different wall-clock time. Histories: two-chain bridge traffic with multi-message transactions, validator bursts with >=3 removals per block and executor-change plans, 7-validator x 6-pair oracle updates, 4-bridge L1 world with export/re-import. Distinct non-trivial = (history kind, seed) whose transcripts contained order-sensitive steps on all replicas"
 	run.Assumptions = []string{"an unsorted 3-element map iteration is caught with probability 1-(1/6)^(N-1) per order-sensitive step", "telemetry timers are not state", "the harness itself is deterministic given the seed (checked implicitly: any harness nondeterminism would also show up as a mismatch)"}
 	for _, c := range []string{"C18.replicas_identical", "C18.concurrent_replicas_identical"} {
 		run.Declare(c, 4)
 	}
-	hists := []c18History{{"two-chain", histTwoChain}, {"validators", histValidators}, {"oracle", histOracle}, {"l1-world", histL1World}}
+	hists := []c18History{{"two-chain", histTwoChain}, {"validators", histValidators}, {"oracle", histOracle}, {"l1-world", histL1World}, {"perm-hook", histPermHook}}
 	N := pick(thorough, 4, 16)
 	seeds := pick(thorough, 2, 3)
 	steps := pick(thorough, 150, 200)
